@@ -45,7 +45,8 @@ func variants() []Variant {
 				{"tka", "uta", sc, 2, 3, true},
 				{"tka", "uta", sc, 2, 2, false},
 				{"tkaa", "utaa", sc, 0, 2, true},
-				{"tkaa", "utc", sc, 3, 2, true}, // initial above maximum: never acceptable
+				{"tkaa", "utc", sc, 3, 2, true},  // initial above maximum: never acceptable
+				{"tkaa", "utd", sc, 3, 2, false}, // the same for a token that can never be minted again
 			},
 			IssueBy:      []string{"A"},
 			EditNothing:  true,
